@@ -6,9 +6,8 @@
     brace   `name {` … `}`                 (format type '*', default description: `{*} = ` + '#' comments)
     sep     `[name]` until the next `[`     (format type ' ', description `[ ] = #`; one level of sections)
     bar     `|name`  until the next `|`     (format type 'x', description `|x| = #`; one level of sections)
-    enc     options only                    (format type 'x' with different start and end characters,
-                                             description `{x} = #`: a section opened by `{name` can not be
-                                             closed in this format, so only option lists are expressible)
+    enc     `{name` … `}`                   (format type 'x' with different start and end characters,
+                                             description `{x} = #`; any depth)
 
   with insignificant decoration chosen per line by a `Decor`: blank and comment lines in front of the
   line, indentation, blanks around the assignment character, trailing blanks and a trailing comment (behind a section
@@ -148,17 +147,24 @@ def openLine (d : LineDecor) (n : List UInt8) : List UInt8 :=
 def closeLine (d : LineDecor) : List UInt8 :=
   d.before ++ d.indent ++ [125] ++ headTrail d ++ [10]
 
+/-- `{name` (enclosed format with different start and end characters) -/
+def encOpenLine (d : LineDecor) (n : List UInt8) : List UInt8 :=
+  d.before ++ d.indent ++ [123] ++ n ++ headTrail d ++ [10]
+
 mutual
-/-- brace style, one tree starting at line `k` -/
-def renderTree (d : Decor) (k : Nat) : Tree → List UInt8
+/-- nested styles (section start line given by `openL`, section end `}`), one tree starting at line `k` -/
+def renderTree (openL : LineDecor → List UInt8 → List UInt8) (d : Decor) (k : Nat) : Tree → List UInt8
   | .node n v cs =>
     if cs.isEmpty then optionLine (d k) n v
-    else openLine (d k) n ++ renderBrace d (k + 1) cs ++ closeLine (d (k + 1 + braceLines cs))
-/-- brace style, a forest starting at line `k` -/
-def renderBrace (d : Decor) (k : Nat) : Forest → List UInt8
+    else openL (d k) n ++ renderNest openL d (k + 1) cs ++ closeLine (d (k + 1 + braceLines cs))
+/-- nested styles, a forest starting at line `k` -/
+def renderNest (openL : LineDecor → List UInt8 → List UInt8) (d : Decor) (k : Nat) : Forest → List UInt8
   | [] => []
-  | t :: ts => renderTree d k t ++ renderBrace d (k + treeLines t) ts
+  | t :: ts => renderTree openL d k t ++ renderNest openL d (k + treeLines t) ts
 end
+
+/-- brace style -/
+abbrev renderBrace (d : Decor) (k : Nat) (f : Forest) : List UInt8 := renderNest openLine d k f
 
 /-- option lines of one section (flat styles) -/
 def renderOptions (d : Decor) : Nat → Forest → List UInt8
@@ -179,7 +185,7 @@ def render (style : Style) (d : Decor) (f : Forest) : List UInt8 :=
   | .brace => renderBrace d 0 f
   | .sep => renderFlat d [91] [93] 0 f
   | .bar => renderFlat d [124] [] 0 f
-  | .enc => renderOptions d 0 f
+  | .enc => renderNest encOpenLine d 0 f
 
 /-! ### which forests a style can express -/
 
@@ -207,7 +213,7 @@ def flatShape : Forest → Bool
     else cs.all isLeaf && ts.all (fun t => !isLeaf t && t.children.all isLeaf)
 
 def admissible (style : Style) (f : Forest) : Bool :=
-  nodesOk f && (match style with | .brace => true | .enc => f.all isLeaf | _ => flatShape f)
+  nodesOk f && (match style with | .brace => true | .enc => true | _ => flatShape f)
 
 mutual
 /-- what is read back: a leaf without text has no value (an empty value and an empty section are the
